@@ -156,10 +156,8 @@ def run(res, ctx):
                 if r["hash"] not in seen:
                     seen.add(r["hash"])
                     st["distinct_nontrivial"] += 1
-                if cls is not None and cls in known_ids and (mcls == cls or mcls is None and cls in ("decimal-overflow", "decimal-underflow")):
+                if cls is not None and cls in known_ids and mcls == cls:
                     known_hit[cls] += 1
-                    if mcls is None:
-                        st["panic-outside-modelled-core"] += 1
                 else:
                     res.violation("failing-input", "panic: %s" % i["panic"][:300],
                                   {"input": r["hc"], "actual_impl": i["panic"], "model": str(m.get("panic"))})
@@ -190,7 +188,8 @@ def run(res, ctx):
             if rng.random() < 0.15:
                 args += ["--date-fmt", rng.choice(["[year]-[month]-[day]", "[day]/[month]/[year]", "[month padding:none]/[day]/[year]", "[bogus]", "[year]"])]
             if rng.random() < 0.2:
-                args += ["-b", rng.choice(["FOO:10:100", "FOO:0:0", "FOO:1.5:0.01", "BAR:3:9", "FOO:x:1", "FOO:1", ":1:1", "FOO:-1:1", "FOO:99999999999.9999999999:99999999999.99"])]
+                args += ["-b", rng.choice(["FOO:10:100", "FOO:0:0", "FOO:1.5:0.01", "BAR:3:9", "FOO:x:1", "FOO:1", ":1:1", "FOO:-1:1", "FOO:99999999999.9999999999:99999999999.99",
+                                         " FOO:10:100", "FOO :10:100", "\tFOO:1:1", "FOO: 10 :100", "FOO:10:100 ", "foo:10:100", "FOO:10:100:7", "::", "FOO:1e3:1"])]
             status, info, argv = run_cli(bindir, "acb", args, [("in.csv", text)], k)
             st["evaluations"] += 1
             st["cli-" + status] += 1
